@@ -75,7 +75,11 @@ def generate(prop, seed, tier):
     n_ops = S.int(1, 4)
     need_fitted = False
     for k in range(n_ops):
-        kind = S.wpick([("save", 5), ("load", 3), ("plot2d", 5), ("plot_dep", 1.2), ("plot_hist", 1), ("plot_iso", 1), ("plot_mq", 0.8)])
+        kind = S.wpick([("save", 5), ("load", 3), ("plot2d", 5), ("plot_dep", 1.2), ("plot_hist", 1), ("plot_iso", 1), ("plot_mq", 0.8), ("plot_dep3", 0.8)])
+        if kind == "plot_dep3":
+            # a directly parameterised 3-D model with two conditional distributions (one panel per dependence function)
+            ops.append({"op": "plot_dep3", "structure": S.pick([[None, 0, 1], [None, 0, 0]]), "own_axes": S.chance(0.4), "semantics": None})
+            continue
         if kind == "save":
             c = _gen_contour(S, three_d_ok=True)
             op = {"op": "save", "contour": c, "path": S.pick(["contour", "contour.txt", "out.csv", "my.contour", "dir.d/c", "noext.", "x.dat", "Ünï"]), "subdir": S.wpick([(None, 6), ("sub", 1)]), "semantics": _gen_semantics(S, c["dim"]), "fault": None, "again": S.chance(0.5)}
@@ -499,6 +503,51 @@ def do_plot2d(run, scen, op, si, model2, state):
         plt.close(ax.figure)
 
 
+def do_plot_dep3(run, scen, op, si):
+    import matplotlib.pyplot as plt
+    import virocon as v
+
+    S = core.SeedStream(scen["universe"]["jitter"])
+    model = models.direct_model(models.three_dim_spec(S, tuple(op["structure"])))
+    n_panels = sum(len(d.conditional_parameters) for d in model.distributions if hasattr(d, "conditional_parameters"))
+    axes_in = None
+    if op["own_axes"]:
+        axes_in = [plt.subplots()[1] for _ in range(n_panels)]
+    exc = None
+    try:
+        axes = v.plot_dependence_functions(model, axes=axes_in)
+    except Exception as e:  # noqa: BLE001
+        exc = e
+    run.event("plot_dep3", [op["structure"], op["own_axes"]], type(exc).__name__ if exc else None)
+    try:
+        if exc is not None:
+            run.violate("plot_dep-raises", type(exc).__name__, {"exc": repr(exc)[:300], "structure": op["structure"], "step": si})
+            return
+        run.count("plot_dep3_checked")
+        if len(axes) != n_panels:
+            run.violate("plot_dep-artists", "panel-count", {"axes": len(axes), "dependence_functions": n_panels, "step": si})
+            return
+        k = 0
+        for dim in range(model.n_dim):
+            if model.conditional_on[dim] is None:
+                continue
+            for par, dep in model.distributions[dim].conditional_parameters.items():
+                ax = axes[k]
+                k += 1
+                if len(ax.lines) != 1 or len(ax.collections) != 0:
+                    run.violate("plot_dep-artists", "count", {"panel": k - 1, "dim": dim, "param": par, "lines": len(ax.lines), "collections": len(ax.collections), "structure": op["structure"], "step": si})
+                    return
+                x = np.asarray(ax.lines[0].get_xdata(), dtype=float)
+                y = np.asarray(ax.lines[0].get_ydata(), dtype=float)
+                with np.errstate(all="ignore"):
+                    want = np.asarray(dep(x), dtype=float)
+                if not np.array_equal(y, want, equal_nan=True):
+                    run.violate("plot_dep-line", "dependence-values", {"panel": k - 1, "dim": dim, "param": par, "step": si})
+                    return
+    finally:
+        plt.close("all")
+
+
 def do_plot_other(run, scen, op, si, fitted):
     import matplotlib.pyplot as plt
     import virocon as v
@@ -690,6 +739,8 @@ def execute(prop, scen):
                     do_load(run, scen, op, si, root)
                 elif op["op"] == "plot2d":
                     do_plot2d(run, scen, op, si, model2, state)
+                elif op["op"] == "plot_dep3":
+                    do_plot_dep3(run, scen, op, si)
                 else:
                     do_plot_other(run, scen, op, si, fitted)
                 if run.violations:
